@@ -66,7 +66,7 @@ CLAIMS = {
   note="Assumes the database/sql model in contracts/deps/sql.spec (BeginTx/Commit/Rollback counters; SQLite makes a commit atomic and durable), op does not commit/roll back itself, the recover()/re-panic path is not modelled. The store model is assumed (membership only, no bytes). NOT decided (no contract within reach): process death at arbitrary points, WAL recovery, the connector-driven creation path (parallel store writes in closures), deletion order, clean-up of left-overs on restart, message bytes on disk.",
   ref="DESIGN.md §4 C07"),
  "C14": dict(
-  text="Deductive proof of the protection clauses of the namespace model, for every name: CREATE of INBOX and DELETE of INBOX (case-insensitive, after modified-UTF-7 decoding) are refused by the session handlers before the state is touched; State.Create refuses every name with the recovery-mailbox prefix (case-insensitive), State.Delete and State.Rename refuse the recovery mailbox as source or destination with ErrOperationNotAllowed - in each case before any write transaction is started (ghost transaction counter unchanged).",
+  text="Deductive proof of the protection clauses of the namespace model, for every name: CREATE of INBOX and DELETE of INBOX (case-insensitive, after modified-UTF-7 decoding) are refused by the session handlers before the state is touched; LIST and LSUB hand the state the reference and the pattern decoded from modified UTF-7 (the empty reference as is); State.Create refuses every name with the recovery-mailbox prefix (case-insensitive), State.Delete and State.Rename refuse the recovery mailbox as source or destination with ErrOperationNotAllowed - in each case before any write transaction is started (ghost transaction counter unchanged).",
   note="strings.EqualFold/ToLower/HasPrefix are uninterpreted functions (foldEq, lower, hasPrefix); stateDBWrite is trusted to start exactly one transaction; closure bodies passed to stateDBWrite are outside these guard contracts (nocallbacks), callee preconditions after the guard are not checked in the guard-only contracts. NOT decided: the hierarchy/subscription reference model over command sequences, LIST/LSUB pattern matching (regular-expression translation in match.go: regexp is outside the verifier), \\Noselect, connector-driven mailbox updates.",
   ref="DESIGN.md §4 C14"),
  "C20": dict(
